@@ -26,6 +26,13 @@ func (vs *ValidatorStore) CheckMaliciousValidators(es *evidence.EvidenceStore, g
 		logger.Fatal("failed to get the evidence options")
 	}
 
+	// validators that are already frozen stay excluded from the election at every height (the
+	// missed-votes scan below only starts once a full vote window exists)
+	es.IterateSuspiciousValidators(func(lvh *evidence.LastValidatorHistory) bool {
+		vs.maliciousValidators[lvh.Address.String()] = lvh
+		return false
+	})
+
 	// skip checks if does not met height criteria
 	if vs.lastHeight <= evidenceOptions.BlockVotesDiff {
 		logger.Infof("Height must be more than equal %d for check. Current: %d\n", evidenceOptions.BlockVotesDiff, vs.lastHeight)
